@@ -27,6 +27,7 @@ type selection struct {
 	idx   []int // selected member positions, in result order
 	err   string
 	panic interface{}
+	hard  bool // a real panic of the library call (not an unexpected error)
 }
 
 func (s selection) String() string {
@@ -145,11 +146,11 @@ func (w *worker) runFilter(c *selCase, raw []byte) {
 			}
 			r := safeCall(pr.F, doc)
 			if r.Panic != nil {
-				return selection{panic: r.Panic}
+				return selection{panic: r.Panic, hard: true}
 			}
 			if r.Err != nil {
 				if errClass(r.Err) != "mne" {
-					return selection{panic: "unexpected error " + r.Err.Error()}
+					return selection{panic: "unexpected error " + r.Err.Error(), hard: strings.HasPrefix(errClass(r.Err), "other:")}
 				}
 				return selection{idx: []int{}, err: r.Err.Error()}
 			}
@@ -166,6 +167,17 @@ func (w *worker) runFilter(c *selCase, raw []byte) {
 		whole := sel(qtext)
 		mode := fmt.Sprintf("decode=%+v", m)
 		prop9 := primary(P, "C09", "C10")
+		if P["C03"] {
+			// totality only: the call returns, with members or with a documented error
+			w.count("C03:filter-evaluations", 1)
+			if whole.hard {
+				w.viol("C03", "panic", canon, before, mode+": "+whole.String(), q.K, raw)
+				return
+			}
+			if !P["C09"] && !P["C10"] && !P["C04"] {
+				continue
+			}
+		}
 		if whole.panic != nil {
 			w.viol(prop9, "filter-failed", canon, before, mode+": "+whole.String(), q.K, raw)
 			return
